@@ -116,8 +116,10 @@ class _File(object):
         return iter(self._f)
 
 
-def install(roots, mode="trace", crash_at=None, half=False, logfile=None, sched=None):
-    STATE.update(mode=mode, n=0, crash_at=crash_at, half=half, log=[], roots=tuple(roots), logfile=logfile, sched=sched)
+def install(roots, mode="trace", crash_at=None, half=False, logfile=None, sched=None, after_open=False):
+    # after_open: a file opened for writing is a point of its own right after the open returned (created / truncated, nothing written yet):
+    # what follows may reach the file without passing through the interposed write (os.sendfile of shutil.copyfile, ...)
+    STATE.update(mode=mode, n=0, crash_at=crash_at, half=half, log=[], roots=tuple(roots), logfile=logfile, sched=sched, after_open=after_open)
     if _real:
         return
     for name in ("mkdir", "remove", "unlink", "symlink", "replace", "rename", "readlink", "stat", "lstat", "rmdir"):
@@ -156,7 +158,10 @@ def install(roots, mode="trace", crash_at=None, half=False, logfile=None, sched=
     def gopen(file, mode="r", *a, **k):
         if isinstance(file, (str, bytes, os.PathLike)) and _interesting(file):
             _before("open", file, mode)
-            return _File(_real["open"](file, mode, *a, **k), file, mode)
+            fobj = _real["open"](file, mode, *a, **k)
+            if STATE.get("after_open") and any(c in mode for c in "wax+"):
+                _before("opened", file, mode)
+            return _File(fobj, file, mode)
         return _real["open"](file, mode, *a, **k)
     builtins.open = gopen
     io.open = gopen
